@@ -26,6 +26,26 @@ def hexVal? (c : Char) : Option Nat :=
 
 def isDec (c : Char) : Bool := c.isDigit
 
+/-- base prefix of a literal body: `0x` / `0o` / `0b`, else decimal. -/
+def splitPrefix (body : List Char) : Nat × List Char :=
+  if body.take 2 = ['0', 'x'] then (16, body.drop 2)
+  else if body.take 2 = ['0', 'o'] then (8, body.drop 2)
+  else if body.take 2 = ['0', 'b'] then (2, body.drop 2)
+  else (10, body)
+
+def decimal (cs : List Char) : Nat := cs.foldl (fun a c => a * 10 + (c.toNat - 48)) 0
+
+/-- a text `body ++ t :: bitsTxt` with `t ∈ {U, B}` and `bitsTxt` a non-empty run of decimal digits. -/
+def classifyOurs (t : Char) (body bitsTxt : List Char) : Shape :=
+  let n := decimal bitsTxt
+  let base := (splitPrefix body).1
+  let digs := (splitPrefix body).2
+  if n + 63 ≥ 2 ^ 64 then .outside
+  else if digs.all (fun c => c = '_' || (hexVal? c).isSome) then
+    if t = 'B' ∧ base = 16 ∧ body.getLast? ≠ some '_' then .hexB
+    else .ours (t = 'U') n base (digs.filterMap hexVal?)
+  else .outside
+
 def shape (src : List Char) : Shape :=
   if src.contains '+' then .outside else
   let r := src.reverse
@@ -33,19 +53,7 @@ def shape (src : List Char) : Shape :=
   match r.dropWhile isDec with
   | [] => .ordinary
   | t :: bodyR =>
-    if bitsR ≠ [] ∧ (t = 'U' ∨ t = 'B') then
-      let body := bodyR.reverse
-      let n := bitsR.reverse.foldl (fun a c => a * 10 + (c.toNat - 48)) 0
-      let (base, digs) : Nat × List Char := match body with
-        | '0' :: 'x' :: d => (16, d)
-        | '0' :: 'o' :: d => (8, d)
-        | '0' :: 'b' :: d => (2, d)
-        | _ => (10, body)
-      if n + 63 ≥ 2 ^ 64 then .outside
-      else if digs.all (fun c => c = '_' || (hexVal? c).isSome) then
-        if t = 'B' ∧ base = 16 ∧ body.getLast? ≠ some '_' then .hexB
-        else .ours (t = 'U') n base (digs.filterMap hexVal?)
-      else .outside
+    if bitsR ≠ [] ∧ (t = 'U' ∨ t = 'B') then classifyOurs t bodyR.reverse bitsR.reverse
     else .ordinary
 
 /-- big-endian positional value. -/
